@@ -362,7 +362,10 @@ class Symbol(LExprTerminal):
 class MultiIndex(LExpr):
     """A multi-index for accessing tensors flattened in memory."""
 
-    precedence = PRECEDENCE.SYMBOL
+    @property
+    def precedence(self):
+        """Precedence of the flattened index expression, which is what gets formatted."""
+        return self.global_index.precedence
 
     def __init__(self, symbols: list, sizes: list):
         """Initialise."""
